@@ -187,6 +187,9 @@ void h_tt_delims(void) {
 	LEAF(CRITIC_HI_OPEN, "{==")
 	LEAF(CRITIC_HI_CLOSE, "==}")
 	LEAF(TEXT_HASH, "#")
+	LEAF(HASH1, "# ")          /* the lexer's HASHn tokens include the blanks that follow the hashes */
+	LEAF(HASH2, "## ")
+	LEAF(HASH3, "###")
 	LEAF(MATH_DOLLAR_SINGLE, "$")
 	LEAF(SLASH, "/")
 	LEAF(TEXT_BACKSLASH, "\\")
